@@ -80,9 +80,13 @@ def check_connect(chk, repo, sup):
                         for nvs in (1, 2):
                             for t2 in other_types if (nus > 1 or nvs > 1) else [None]:
                                 for as_str in ((True, False) if nus == 1 and nvs == 1 else (False,)):
-                                    for order, pre in (((0, 0), (1, 0), (0, 1), (1, 1)) if (nus > 1 or nvs > 1) else ((0, 0),)):
+                                    # (pre == 2: the sink already drives the source - the requested edge closes a loop; an "edge exists already"
+                                    # test has to look in the right direction)
+                                    for order, pre in (((0, 0), (1, 0), (0, 1), (1, 1)) if (nus > 1 or nvs > 1) else ((0, 0), (0, 2))):
                                         attrs = {"u": {"type": tu, "output": False}, "v": {"type": tv, "output": False}}
                                         edges = []
+                                        if pre == 2:
+                                            edges.append(("v", "u"))
                                         for i in range(fin):
                                             attrs[f"d{i}"] = {"type": "input", "output": False}
                                             edges.append((f"d{i}", "v"))
@@ -96,7 +100,7 @@ def check_connect(chk, repo, sup):
                                         if nvs > 1:
                                             attrs["v2"] = {"type": t2, "output": False}
                                             vs = ["v", "v2"]
-                                        if pre:
+                                        if pre == 1:
                                             # one of the requested edges exists already: u feeds the *other* sink / the *other* source feeds v
                                             if nvs > 1:
                                                 edges.append(("u", "v2"))
@@ -275,13 +279,18 @@ def check_uid(chk, repo):
     params = func_params(fi.node)
     n = 0
     bad = None
-    for k in list(range(0, 14)) + [71]:
+    # k = 0..13: x and its first k - 1 numbered copies are taken; 71: the jump beyond ten copies lands on a taken name; 100+: numbered
+    # names with gaps (a copy counted is not a copy probed: x, x_1 / x, x_0, x_2 / x, x_5 / x_0 alone)
+    gaps = {100: {"x", "x_1"}, 101: {"x", "x_0", "x_2"}, 102: {"x", "x_5"}, 103: {"x_0"}, 104: {"x", "x_1", "x_2", "x_3"}}
+    for k in list(range(0, 14)) + [71] + sorted(gaps):
         for blocked in (None, [], ["x"], ["x", "x_0"], ["x_1"], ["x_3", "x_70"]):
             names = set()
             if k >= 1:
                 names.add("x")
-            for i in range(max(0, k - 1)):
+            for i in range(max(0, k - 1) if k < 100 else 0):
                 names.add(f"x_{i}")
+            if k in gaps:
+                names = set(gaps[k])
             if k == 71:
                 names = {"x"} | {f"x_{i}" for i in range(11)} | {"x_70"}
             c = MMutCircuit({m: {"type": "and"} for m in names}, [])
